@@ -223,6 +223,8 @@ const preludeRelaxed = `(set-option :produce-models true)
 (define-fun imin ((a Int) (b Int)) Int (ite (<= a b) a b))
 (define-fun imax ((a Int) (b Int)) Int (ite (>= a b) a b))
 (define-fun idx ((o Int) (i Int)) Int (+ o i))
+(declare-fun arr_ty (Int) Int)
+(declare-fun cell_ty (Int) Int)
 `
 
 const prelude = `(set-option :produce-models true)
@@ -232,7 +234,7 @@ const prelude = `(set-option :produce-models true)
 (declare-fun sbyte (Str Int) Int)
 (declare-const str_empty Str)
 (assert (= (slen str_empty) 0))
-(assert (forall ((s Str)) (! (>= (slen s) 0) :pattern ((slen s)))))
+(assert (forall ((s Str)) (! (and (>= (slen s) 0) (<= (slen s) 72057594037927936)) :pattern ((slen s)))))
 (assert (forall ((s Str)) (! (=> (= (slen s) 0) (= s str_empty)) :pattern ((slen s)))))
 (declare-datatypes ((Slice 0)) (((mk_slice (sl_base Int) (sl_off Int) (sl_len Int) (sl_cap Int)))))
 (declare-datatypes ((Ptr 0)) (((pnil) (pcell (pc_ref Int)) (pfield (pf_ref Int) (pf_id Int)) (pelem (pe_base Int) (pe_idx Int)))))
@@ -242,6 +244,8 @@ const prelude = `(set-option :produce-models true)
 (define-fun imax ((a Int) (b Int)) Int (ite (>= a b) a b))
 (declare-fun idx (Int Int) Int)
 (assert (forall ((o Int) (i Int)) (! (= (idx o i) (+ o i)) :pattern ((idx o i)))))
+(declare-fun arr_ty (Int) Int)
+(declare-fun cell_ty (Int) Int)
 `
 
 // render produces the full text of a query. goalNeg is the negated goal (or "" for a
